@@ -448,7 +448,7 @@ func (vm *valueMask) isEmpty() bool {
 }
 
 func (vm *valueMask) setCapability(capability int, state bool) error {
-	if capability > len(vm.capabilities) {
+	if capability < 0 || capability >= len(vm.capabilities) {
 		return fmt.Errorf("invalid capability: %d", capability)
 	}
 
